@@ -663,6 +663,54 @@ def rule_r7(rep, program):
     return r
 
 
+def rule_r10(rep, program):
+    """The solvers and the reversibility checks detect a non-finite iterate through its norm: `error > divergence_tol or
+    isnan(error)`.  That works only if the norm propagates NaN from any coordinate.  NumPy reductions (`.max()`, `.sum()`,
+    `np.linalg.norm`) do; Python's built-in `max` / `min` compare pairwise and keep a NaN only if it is the first element,
+    and the `nan*` / `fmax` / `fmin` reductions skip NaN by design."""
+    import ast
+
+    from ..model import call_name, norm
+
+    r = rep.rule("R10", "the norms used for convergence, divergence and reversibility tests propagate NaN from every coordinate (NumPy reductions, not built-in max / min or NaN-skipping reductions)", floor=2)
+    norms = []
+    for mod in ("solvers", "integrators"):
+        for f in program.module_functions(mod) if hasattr(program, "module_functions") else []:
+            if f.name.endswith("_norm"):
+                norms.append(f)
+    if not norms:
+        for nm in ("euclidean_norm", "maximum_norm"):
+            try:
+                norms.append(program.func("solvers", nm))
+            except Exception:  # noqa: BLE001
+                pass
+    # any other function of solvers.py used as the default of a `norm` parameter
+    try:
+        smod = next(mm for n_, mm in program.modules.items() if n_.split(".")[-1] == "solvers")
+        for f in smod.functions.values():
+            if f.name.endswith("_norm") and f not in norms:
+                norms.append(f)
+    except StopIteration:
+        pass
+    nan_skipping = {"np.nanmax", "np.nanmin", "np.nansum", "np.nanmean", "np.fmax", "np.fmin", "np.nanmedian", "np.nanprod", "np.nan_to_num"}
+    for f in norms:
+        rets = [n for n in ast.walk(f.node) if isinstance(n, ast.Return) and n.value is not None]
+        r.inst({"norm": f.qualname, "returns": [norm(x.value)[:60] for x in rets]})
+        for n in ast.walk(f.node):
+            if not isinstance(n, ast.Call):
+                continue
+            cn = call_name(n)
+            if cn in ("max", "min", "sorted") and n.args and not (len(n.args) >= 2 and cn != "sorted"):
+                r.violate(PROP, f"{f.qualname}:builtin-{cn}", f"{f.qualname} reduces with Python's built-in `{cn}` (`{norm(n)[:50]}`): comparisons with NaN are false, so a NaN in any coordinate but the first is skipped and a non-finite iterate passes the solvers' `isnan(error)` / divergence tests as converged", node=n, file=f.file)
+            elif cn in ("max", "min") and len(n.args) >= 2:
+                r.violate(PROP, f"{f.qualname}:builtin-{cn}", f"{f.qualname} combines values with Python's built-in `{cn}` (`{norm(n)[:50]}`), which drops a NaN operand depending on its position", node=n, file=f.file)
+            elif cn in nan_skipping or (isinstance(n.func, ast.Attribute) and n.func.attr in ("nanmax", "nanmin", "nansum")):
+                r.violate(PROP, f"{f.qualname}:{cn}", f"{f.qualname} uses the NaN-skipping reduction `{cn}`: a non-finite iterate is reported with a finite norm", node=n, file=f.file)
+    if len(norms) < 2:
+        raise AnalysisError("norm helpers of solvers.py not found")
+    return r
+
+
 def run(rep, program: Program, tier: str) -> None:
     rep.explanation = (
         "Exit- and exception-discipline of the five solvers (CFG must-facts for convergence, "
@@ -684,6 +732,7 @@ def run(rep, program: Program, tier: str) -> None:
     rep.isolate(rule_r6, rep, program, et)
     rep.isolate(rule_r7, rep, program)
     rep.isolate(rule_r9, rep, program, et)
+    rep.isolate(rule_r10, rep, program)
     # a failed reversibility check can only be contained and recorded if the check is made: every implicit /
     # retraction sub-step is covered by a complete check (shared with C02-R4)
     from . import c02
